@@ -22,7 +22,9 @@
   Known findings (the C code is wrong, the model mirrors it, the full statements are refuted below):
     F11 Slice iteration outside the parameter region, F12 backward walk and negative `get` over a Zip of unequal inputs,
     F13 a Tuple holding one object twice; `get` on a Range / Map / Zip (or a Slice / enumerate over them) DURING a walk
-    overwrites the cursor of the walk; one Range / Map / Zip object twice in a Zip shares one cursor.
+    overwrites the cursor of the walk; one Range / Map / Zip object twice in a Zip shares one cursor;
+    `mem` on a Slice never answers false (Slice_Mem's loop tests `curr != NULL`), `mem` on a Range treats a negative key as an
+    index; a Range whose walk needs a value outside int64_t (one step beyond the last element) overflows.
 -/
 import CelloProofs.Lemmas.IterRun
 import CelloProofs.Lemmas.IterContainers
@@ -35,6 +37,9 @@ import CelloProofs.Lemmas.IterDir
 import CelloProofs.Lemmas.IterGet
 import CelloProofs.Lemmas.IterCompose
 import CelloProofs.Lemmas.IterMutDenote
+import CelloProofs.Lemmas.IterMem
+import CelloProofs.Lemmas.IterRange64
+import CelloProofs.Lemmas.IterZipNil
 
 namespace Cello.Iter
 
@@ -99,9 +104,12 @@ theorem C11_tuple_dup_refuted : ¬ C11_tuple_statement := by
 
 /-! ## Range -/
 
-/-- **Range**, for ALL `(start, stop, step)` — step 0, negative steps, empty ranges, lengths not divisible by the step:
+/-- **Range on ℤ**, for ALL `(start, stop, step)` — step 0, negative steps, empty ranges, lengths not divisible by the step:
     forward iteration yields `rangeList`, the backward walk its reverse, `Range_Len` is its length and `Range_Get i` its
-    `i`-th element.  (This is the statement that F09/F10 violated before the `fix:` commits.) -/
+    `i`-th element.  (This is the statement that F09/F10 violated before the `fix:` commits.)
+    `rangeI` computes in ℤ; the C fields and the cursor are `int64_t`: the same statement about the machine with the overflow
+    test of every signed operation is `C11_range64_lawful`, under the explicit hypotheses `RangeFitsFwd` / `RangeFitsBwd`, and
+    is refuted without them (`C11_range64_refuted`). -/
 theorem C11_range_lawful (start stop step : Int) :
     LawfulAs (rangeI start stop step) (rangeList start stop step) ∧
     (rangeI start stop step).len = some (rangeList start stop step).length :=
@@ -112,6 +120,44 @@ theorem C11_range_absorbs (start stop step : Int) :
     AbsFwdAs (rangeI start stop step) (rangeList start stop step) ∧
     AbsBwdAs (rangeI start stop step) (rangeList start stop step) :=
   range_abs start stop step
+
+/-- **Range on `int64_t`** (`rangeI64`: `i->val += r->step` overflows = undefined behaviour), per direction: if the FORWARD
+    walk stays inside int64_t — the fields, and the value ONE STEP BEYOND THE LAST ELEMENT, which Range_Iter_Next computes
+    before it compares (`RangeFitsFwd`) — foreach yields `rangeList` and then Terminal; if the BACKWARD walk does —
+    Range_Len's own subtraction, and the value one step before the first element (`RangeFitsBwd`) — the backward walk yields
+    the reverse; `len` and `get` agree.  On these ranges the int64 machine IS the machine on ℤ that the composition theorems
+    are about. -/
+theorem C11_range64_lawful (start stop step : Int) :
+    (RangeFitsFwd start stop step → LawfulFwdAs (rangeI64 start stop step) (rangeList start stop step)) ∧
+    (RangeFitsBwd start stop step → LawfulBwdAs (rangeI64 start stop step) (rangeList start stop step)) :=
+  ⟨fun h => ⟨range64_fwdAs start stop step h, range64_lenGet start stop step⟩,
+   fun h => ⟨range64_bwdAs start stop step h, range64_lenGet start stop step⟩⟩
+
+/-- full statement for the Range on int64_t: every Range whose three fields are int64_t values is lawful — refuted by
+    `C11_range64_refuted` -/
+def C11_range64_statement : Prop :=
+  ∀ a b c : Int, isI64 a = true → isI64 b = true → isI64 c = true → LawfulAs (rangeI64 a b c) (rangeList a b c)
+
+/-- **a Range near the limits of int64_t**: `range(MAX-2, MAX, 5)` has the one element `MAX-2` (`len` = 1); after it
+    Range_Iter_Next adds 5 — a signed overflow (compiled without a trap the cursor wraps to `MIN+2`, is "below stop" again
+    and the walk runs away).  `range(MIN, MIN+8, 3)` walks forwards correctly and overflows backwards (`MIN - 3`). -/
+theorem C11_range64_refuted : ¬ C11_range64_statement ∧
+    (rangeI64 (2 ^ 63 - 3) (2 ^ 63 - 1) 5).forward 10 = ([2 ^ 63 - 3], .undef) ∧ rangeLen (2 ^ 63 - 3) (2 ^ 63 - 1) 5 = 1 ∧
+    ¬ RangeFitsFwd (2 ^ 63 - 3) (2 ^ 63 - 1) 5 ∧
+    (rangeI64 (-(2 ^ 63)) (-(2 ^ 63) + 8) 3).forward 10 = ([-(2 ^ 63), -(2 ^ 63) + 3, -(2 ^ 63) + 6], .term) ∧
+    (rangeI64 (-(2 ^ 63)) (-(2 ^ 63) + 8) 3).backward 10 = ([-(2 ^ 63) + 6, -(2 ^ 63) + 3, -(2 ^ 63)], .undef) ∧
+    RangeFitsFwd (-(2 ^ 63)) (-(2 ^ 63) + 8) 3 ∧ ¬ RangeFitsBwd (-(2 ^ 63)) (-(2 ^ 63) + 8) 3 := by
+  refine ⟨?_, by decide, by decide, by decide, by decide, by decide, by decide, by decide⟩
+  intro H
+  have h := ((H (2 ^ 63 - 3) (2 ^ 63 - 1) 5 (by decide) (by decide) (by decide)).fwd (rangeI64 (2 ^ 63 - 3) (2 ^ 63 - 1) 5).s0).runFuel 10 (by decide)
+  revert h; decide
+
+/-- the hypotheses are met at the very limits: `range(MAX-7, MAX, 7)` (one element; `MAX` itself is the value beyond it) and
+    `range(MIN+3, MIN+9, 3)` backwards (`MIN` is the value before the first) -/
+example : RangeFitsFwd (2 ^ 63 - 8) (2 ^ 63 - 1) 7 ∧ RangeFitsBwd (2 ^ 63 - 8) (2 ^ 63 - 1) 7 ∧
+    RangeFitsFwd (-(2 ^ 63) + 3) (-(2 ^ 63) + 9) 3 ∧ RangeFitsBwd (-(2 ^ 63) + 3) (-(2 ^ 63) + 9) 3 ∧
+    (rangeI64 (2 ^ 63 - 8) (2 ^ 63 - 1) 7).forward 10 = ([2 ^ 63 - 8], .term) ∧
+    (rangeI64 (-(2 ^ 63) + 3) (-(2 ^ 63) + 9) 3).backward 10 = ([-(2 ^ 63) + 6, -(2 ^ 63) + 3], .term) := by decide
 
 /-- `rangeList` is the definition of the property text: for a positive step exactly the numbers `start + step*j`
     (`j = 0, 1, …`) below `stop`; for a negative step exactly the numbers `stop-1 + step*j` not below `start`;
@@ -196,14 +242,27 @@ theorem C11_map_closed_dir {α β : Type} (I : Iterable α) (f : α → β) (l :
   ⟨fun h => ⟨map_fwdAs I f h.fwd, map_lenGet I f h.lg⟩, fun h => ⟨map_bwdAs I f h.bwd, map_lenGet I f h.lg⟩,
     map_absFwd I f, map_absBwd I f⟩
 
-/-- **Zip**, any arity ≥ 1, inputs of ANY lengths, each input needing only its FORWARD half: the forward walk yields the
+/-- **Zip**, ANY arity (also `zip()`, no inputs: Zip_Iter_Init / Zip_Len test `num is 0` first), inputs of ANY lengths, each input needing only its FORWARD half: the forward walk yields the
     tuples up to the shortest input and then Terminal, `len` is the minimum and `get i` the `i`-th tuple.
     `zipI Is` gives every input its own cursor state: the inputs are DISTINCT objects (or objects whose cursor is the
     pointer the caller holds — `C11_zip_same_object_cursor_held`); one Range / Map / Zip object twice in a Zip is
     `zipSameI`, refuted in `C11_zip_same_object_refuted`. -/
-theorem C11_zip_forward {α : Type} (Is : List (Iterable α)) (ls : List (List α)) (hne : Is ≠ [])
-    (h : All₂ (fun I l => LawfulFwdAs I l) Is ls) : LawfulFwdAs (zipI Is) (zipLists ls) :=
-  ⟨zip_fwdAs Is ls hne (h.imp fun _ _ x => x.fwd), zip_lenGet Is ls hne (h.imp fun _ _ x => x.lg)⟩
+theorem C11_zip_forward {α : Type} (Is : List (Iterable α)) (ls : List (List α))
+    (h : All₂ (fun I l => LawfulFwdAs I l) Is ls) : LawfulFwdAs (zipI Is) (zipLists ls) := by
+  by_cases hne : Is = []
+  · subst hne; cases h
+    exact ⟨zip_nil_lawfulAs.fwd, zip_nil_lawfulAs.len, zip_nil_lawfulAs.get⟩
+  · exact ⟨zip_fwdAs Is ls hne (h.imp fun _ _ x => x.fwd), zip_lenGet Is ls hne (h.imp fun _ _ x => x.lg)⟩
+
+/-- **a Zip of NO inputs** is lawful for the empty sequence; its `get`, however, answers the empty tuple for EVERY index instead of
+    raising IndexOutOfBoundsError (the loop over the inputs is empty): this is why `GetFullAs` for a Zip (`C11_get_every_index`)
+    keeps the hypothesis `Is ≠ []`, and why `defOf (.zip [])` is undefined in the composition theorems -/
+theorem C11_zip_no_inputs {α : Type} : LawfulAs (zipI ([] : List (Iterable α))) [] ∧
+    (∀ k : Int, (zipI ([] : List (Iterable α))).get.map (fun g => g k) = some (some [])) ∧
+    ¬ GetFullAs (zipI ([] : List (Iterable α))) [] := by
+  refine ⟨zip_nil_lawfulAs, zip_nil_get, fun H => ?_⟩
+  have h := H _ rfl 0
+  simp [getIdx] at h
 
 /-- the zipped sequence has the length of the shortest input -/
 theorem C11_zipLists_length {α : Type} (l : List α) (l' : List α) (ls : List (List α)) :
@@ -211,16 +270,21 @@ theorem C11_zipLists_length {α : Type} (l : List α) (l' : List α) (ls : List 
   simp [zipLists]
 
 /-- **Zip**, inputs of EQUAL length: lawful in both directions. -/
-theorem C11_zip_closed {α : Type} (Is : List (Iterable α)) (ls : List (List α)) (hne : Is ≠ []) (n : Nat)
+theorem C11_zip_closed {α : Type} (Is : List (Iterable α)) (ls : List (List α)) (n : Nat)
     (hlen : ∀ l ∈ ls, l.length = n) (h : All₂ (fun I l => LawfulAs I l) Is ls) :
-    LawfulAs (zipI Is) (zipLists ls) :=
-  zip_lawfulAs Is ls hne n hlen h
+    LawfulAs (zipI Is) (zipLists ls) := by
+  by_cases hne : Is = []
+  · subst hne; cases h; exact zip_nil_lawfulAs
+  · exact zip_lawfulAs Is ls hne n hlen h
 
 /-- **Zip backward**, inputs of EQUAL length — or one input EMPTY (Zip_Iter_Last then answers Terminal at once): each
     input needing only its BACKWARD half.  (What is left outside is exactly F12: unequal lengths, none of them 0.) -/
-theorem C11_zip_backward_equal {α : Type} (Is : List (Iterable α)) (ls : List (List α)) (hne : Is ≠ [])
+theorem C11_zip_backward_equal {α : Type} (Is : List (Iterable α)) (ls : List (List α))
     (hlen : (∃ n, ∀ l ∈ ls, l.length = n) ∨ (∃ l ∈ ls, l = [])) (h : All₂ (fun I l => LawfulBwdAs I l) Is ls) :
     LawfulBwdAs (zipI Is) (zipLists ls) := by
+  by_cases hne : Is = []
+  · subst hne; cases h
+    exact ⟨zip_nil_lawfulAs.bwd, zip_nil_lawfulAs.len, zip_nil_lawfulAs.get⟩
   refine ⟨?_, zip_lenGet Is ls hne (h.imp fun _ _ x => x.lg)⟩
   rcases hlen with ⟨n, hn⟩ | hemp
   · exact zip_bwdAs Is ls hne n hn (h.imp fun _ _ x => x.bwd)
@@ -228,13 +292,13 @@ theorem C11_zip_backward_equal {α : Type} (Is : List (Iterable α)) (ls : List 
 
 /-- full statement for the backward walk of Zip (inputs of any lengths) — refuted by `C11_zip_backward_refuted` -/
 def C11_zip_backward_statement : Prop :=
-  ∀ (Is : List (Iterable Nat)) (ls : List (List Nat)), Is ≠ [] → All₂ (fun I l => LawfulAs I l) Is ls →
+  ∀ (Is : List (Iterable Nat)) (ls : List (List Nat)), All₂ (fun I l => LawfulAs I l) Is ls →
     BwdAs (zipI Is) (zipLists ls)
 
 /-- **F12**: `zip([1,2,3], [10,20])` walks backwards as (3,20) (2,10): Zip_Iter_Last takes each input's own last. -/
 theorem C11_zip_backward_refuted : ¬ C11_zip_backward_statement := by
   intro H
-  have h := (H [arrayI [1, 2, 3], arrayI [10, 20]] [[1, 2, 3], [10, 20]] (by simp)
+  have h := (H [arrayI [1, 2, 3], arrayI [10, 20]] [[1, 2, 3], [10, 20]]
     (All₂.cons (array_lawfulAs _) (All₂.cons (array_lawfulAs _) All₂.nil)) (true, (none, none, ()))).runFuel 8 (by decide)
   revert h; decide
 
@@ -652,6 +716,77 @@ theorem C11_zip_same_object_refuted : ¬ C11_zip_same_object_statement ∧
   refine ⟨?_, by decide, by decide⟩
   intro H
   have h := ((H (rangeI 0 4 1) (rangeList 0 4 1) 2 (by decide) (range_lawfulAs 0 4 1)) (zipSameI (rangeI 0 4 1) 2).s0).runFuel 10 (by decide)
+  revert h; decide
+
+/-! ## `mem` — the third member of the Get instances of src/Iter.c -/
+
+/-- **`mem` through `foreach`** (Zip_Mem, Filter_Mem, Map_Mem — and Slice_Mem once its loop tests `curr isnt Terminal`): over any
+    iterable whose forward walk is right, `mem` answers exactly "the key is one of the elements" -/
+theorem C11_mem_foreach {α : Type} (I : Iterable α) (l : List α) (h : FwdAs I l) (eq : α → Bool) (fuel : Nat)
+    (hf : l.length < fuel) : I.memForeach eq fuel = if l.any eq then .yes else .no :=
+  memForeach_of_run eq I.next _ l (h I.s0) fuel hf
+
+/-- **Slice_Mem as it is** (`while (curr)`): a key that IS in the slice is found; for a key that is NOT, the loop does not end
+    at Terminal — Terminal is compared with the key (`undef`: a stray ValueError for an Int key) -/
+theorem C11_slice_mem_partial {α : Type} (I : Iterable α) (l : List α) (h : FwdAs I l) (eq : α → Bool) (fuel : Nat)
+    (hf : l.length < fuel) : I.memWhileCurr eq fuel = if l.any eq then .yes else .undef :=
+  memLoop_of_run eq I.next _ l (h I.s0) fuel hf
+
+/-- … and whatever the iterable, the parameters and the key: Slice_Mem NEVER answers false -/
+theorem C11_slice_mem_never_false {α : Type} (I : Iterable α) (eq : α → Bool) (fuel : Nat) : I.memWhileCurr eq fuel ≠ .no :=
+  memLoop_ne_no eq I.next fuel _
+
+/-- full statement for `mem` of a Slice — refuted by `C11_slice_mem_refuted` -/
+def C11_slice_mem_statement : Prop :=
+  ∀ (I : Iterable Int) (l : List Int) (key : Int) (fuel : Nat), FwdAs I l → l.length < fuel →
+    I.memWhileCurr (fun x => x == key) fuel = if key ∈ l then .yes else .no
+
+/-- **`mem(slice(array(1,2,3)), 9)`** does not answer false: the whole-sequence Slice is lawful, 9 is not in it, and the
+    loop goes on to compare Terminal with 9.  With the one-token repair (`memForeach`) the answer is false. -/
+theorem C11_slice_mem_refuted : ¬ C11_slice_mem_statement ∧
+    (sliceI (arrayI [1, 2, 3]) 3 0 3 1).memWhileCurr (fun x => x == 9) 10 = .undef ∧
+    (sliceI (arrayI [1, 2, 3]) 3 0 3 1).memWhileCurr (fun x => x == 2) 10 = .yes ∧
+    (sliceI (arrayI [1, 2, 3]) 3 0 3 1).memForeach (fun x => x == 9) 10 = .no := by
+  refine ⟨?_, by decide, by decide, by decide⟩
+  intro H
+  have hs : FwdAs (sliceI (arrayI [(1 : Int), 2, 3]) 3 0 3 1) (sliceSpec [(1 : Int), 2, 3] 0 3 1) :=
+    slice_fwdAs (arrayI [(1 : Int), 2, 3]) (fun _ => (array_lawfulAs _).fwd) (fun _ => (array_lawfulAs _).bwd) 0 3 (by decide) (by decide)
+      (C11_reverse_in_region 3).2.2.1
+  have h := H (sliceI (arrayI [1, 2, 3]) 3 0 3 1) (sliceSpec [1, 2, 3] 0 3 1) 9 10 hs (by decide)
+  revert h; decide
+
+/-- **Range_Mem as it is**, for EVERY key: it answers the membership of `key` for a non-negative key — and the membership of
+    `key + len` for a negative one (`i = i < 0 ? Range_Len(r)+i : i` treats the key as an index) -/
+theorem C11_range_mem_is (start stop step key : Int) :
+    rangeMem start stop step key =
+      decide ((if key < 0 then (rangeLen start stop step : Int) + key else key) ∈ rangeList start stop step) := by
+  rw [rangeMem_eq_fix, Bool.eq_iff_iff, rangeMemFix_iff]; simp
+
+/-- hence Range_Mem is right for every non-negative key, and for exactly those negative keys on which `key` and `key + len`
+    agree; without the normalisation line (proposed repair, `rangeMemFix`) it is right for every key -/
+theorem C11_range_mem_partial (start stop step key : Int) :
+    (0 ≤ key → rangeMem start stop step key = decide (key ∈ rangeList start stop step)) ∧
+    (key < 0 → (rangeMem start stop step key = decide (key ∈ rangeList start stop step) ↔
+      (key ∈ rangeList start stop step ↔ (rangeLen start stop step : Int) + key ∈ rangeList start stop step))) ∧
+    rangeMemFix start stop step key = decide (key ∈ rangeList start stop step) := by
+  refine ⟨fun h => ?_, fun h => ?_, ?_⟩
+  · rw [C11_range_mem_is]; have : ¬ key < 0 := by omega
+    simp [this]
+  · rw [C11_range_mem_is]; simp only [h, if_true, decide_eq_decide]
+    exact ⟨fun e => e.symm, fun e => e.symm⟩
+  · rw [Bool.eq_iff_iff, rangeMemFix_iff]; simp
+
+/-- full statement for `mem` of a Range — refuted by `C11_range_mem_refuted` -/
+def C11_range_mem_statement : Prop :=
+  ∀ a b c key : Int, rangeMem a b c key = decide (key ∈ rangeList a b c)
+
+/-- **`mem(range(-5,5), -1)` is false although -1 is an element; `mem(range(0,10), -1)` is true although it is not** (9 is) -/
+theorem C11_range_mem_refuted : ¬ C11_range_mem_statement ∧
+    rangeMem (-5) 5 1 (-1) = false ∧ (-1 : Int) ∈ rangeList (-5) 5 1 ∧
+    rangeMem 0 10 1 (-1) = true ∧ (-1 : Int) ∉ rangeList 0 10 1 ∧ rangeMem 0 10 (-2) 9 = true ∧ rangeMem 0 10 (-2) 8 = false := by
+  refine ⟨?_, by decide, by decide, by decide, by decide, by decide, by decide⟩
+  intro H
+  have h := H 0 10 1 (-1)
   revert h; decide
 
 /-! ## Non-vacuity -/
